@@ -13,6 +13,7 @@ for the code it is what the tie checks.
 -/
 import DosModel.Proofs.Content
 import DosModel.Gen.DosnodeConsts
+import DosModel.Gen.ChainHandlerFacts
 
 namespace Dos.Props.C07
 open Dos Dos.Content
@@ -29,6 +30,40 @@ theorem c07_submitter_expr (r n : Nat) (hn : n ≠ 0) : submitterIdx r n = some 
 theorem c07_threshold_expr (n : Nat) :
     Gen.thresholdDispatch n = threshold n ∧ Gen.thresholdRecover n = threshold n ∧ Gen.participantsRecover n = n := by
   simp [Gen.thresholdDispatch, Gen.thresholdRecover, Gen.participantsRecover, threshold]
+
+/-- **0b. which event field reaches which content stage** (regenerated, go/extract/chainhandler):
+the `handleQuery` call of each event type, `handleQuery`'s parameter order, and the arguments each
+stage gets.  So: system randomness signs `padOrTrim(LastRandomness.Bytes(), 32) ‖ submitter`, user
+randomness `RequestId.Bytes() ‖ LastSystemRandomness.Bytes() ‖ UserSeed.Bytes() ‖ submitter`, URL
+`dataParse(fetch(DataSource), Selector) ‖ submitter`; the submitter is chosen from
+`LastRandomness` / `LastSystemRandomness` / `Randomness` and the group's member list. -/
+theorem c07_event_fields :
+    Gen.ChainHandlerFacts.queryCalls = [
+      "*onchain.LogUpdateRandom => d.handleQuery(ids, pub, sec, groupID, content.LastRandomness, content.LastRandomness, nil, \"\", \"\", uint32(onchain.TrafficSystemRandom))",
+      "*onchain.LogRequestUserRandom => d.handleQuery(ids, pub, sec, groupID, content.RequestId, content.LastSystemRandomness, content.UserSeed, \"\", \"\", uint32(onchain.TrafficUserRandom))",
+      "*onchain.LogUrl => d.handleQuery(ids, pub, sec, groupID, content.QueryId, content.Randomness, nil, content.DataSource, content.Selector, uint32(onchain.TrafficUserQuery))"]
+    ∧ Gen.ChainHandlerFacts.handleQueryParams = [
+      "ids",
+      "pubPoly",
+      "sec",
+      "groupID",
+      "requestID",
+      "lastRand",
+      "useSeed",
+      "url",
+      "selector",
+      "pType"]
+    ∧ Gen.ChainHandlerFacts.handleQueryStages = [
+      "queryCtx, cancel := context.WithTimeout(context.Background(), time.Duration(60*d.chain.GetBlockTime())*time.Second)",
+      "submitterc, errc := choseSubmitter(queryCtxWithValue, d.p, d.chain, lastRand, ids, 2, d.logger)",
+      "case onchain.TrafficSystemRandom: contentc = genSysRandom(queryCtxWithValue, submitterc[0], lastRand.Bytes(), d.logger)",
+      "case onchain.TrafficUserRandom: contentc = genUserRandom(queryCtxWithValue, submitterc[0], requestID.Bytes(), lastRand.Bytes(), useSeed.Bytes(), d.logger)",
+      "case onchain.TrafficUserQuery: contentc, errc = genQueryResult(queryCtxWithValue, submitterc[0], url, selector, d.logger)",
+      "signc, errc := genSign(queryCtxWithValue, contentc, sec, d.suite, sign, d.logger)",
+      "signAllc := dispatchSign(queryCtxWithValue, submitterc[1], signc, d.reqSignc, d.p, requestID.Bytes(), (len(ids)/2 + 1), d.logger)",
+      "recoveredSignc, errc := recoverSign(queryCtxWithValue, signAllc, d.suite, pubPoly, (len(ids)/2 + 1), len(ids), d.logger)",
+      "errcList = append(errcList, reportQueryResult(queryCtxWithValue, d.chain, pType, recoveredSignc))"] :=
+  ⟨rfl, rfl, rfl⟩
 
 /-- **1. length.**  The system-randomness message is 32 + |address| bytes, 52 for a 20-byte address,
 for every last randomness (0, small, above 2^256). -/
